@@ -10,8 +10,8 @@ Import ListNotations.
 Open Scope N_scope.
 
 (** For EVERY sequence of put/get/has/delete/list over non-empty byte-string names
-    whose file name fits NAME_MAX, the filesystem keystore (with Delete of an absent
-    key succeeding, flag off) gives exactly the answers of the in-memory keystore —
+    whose file name fits NAME_MAX, the filesystem keystore gives exactly the answers
+    of the in-memory keystore (flag off: Delete of an absent key is ErrNoSuchKey in both) —
     a finite map that refuses to overwrite — and its directory holds exactly the
     encoded entries of that map. *)
 Theorem C40_refines_map : forall ops, valid_ops ops = true ->
